@@ -957,6 +957,10 @@ def _b_isinstance(eng, args, kwargs):
     for c in ts:
         if c is None:
             continue
+        if hasattr(v, "__pyvc_isinstance__"):  # extension values (pyvc/ext_*.py) say which real classes they stand for
+            if v.__pyvc_isinstance__(c):
+                return True
+            continue
         if isinstance(v, Obj):
             if isinstance(c, type) and isinstance(v.cls, type) and issubclass(v.cls, c):
                 return True
